@@ -499,6 +499,14 @@ impl Bitswap {
     /// Start [`Bitswap`] event loop.
     pub async fn run(mut self) {
         tracing::debug!(target: LOG_TARGET, "starting bitswap event loop");
+        #[cfg(litep2p_verif)]
+        if crate::verif::config_notes_enabled() {
+            crate::verif::note_config(
+                self.service.local_peer_id(),
+                "bitswap",
+                format!("cap={}/{}", self.event_tx.max_capacity(), self.cmd_rx.max_capacity()),
+            );
+        }
 
         loop {
             #[cfg(litep2p_verif)]
